@@ -58,13 +58,23 @@ BindingLaws(e, p, vk, withR) ==
              THEN {"H2_preimage"} ELSE {})
        \cup (IF withR # << >> /\ SubSeq(Q(e, n + 3)[2], 1, Len(withR)) # withR THEN {"H2_preimage_R"} ELSE {})
 
+\* k pairs of nonces: 2k draws of 32 bytes (rng_served is logged in 32-byte units however the library
+\* chunks its requests); the j-th H3 query hashes the j-th draw followed by the encoded share, and the
+\* nonces are the H3 outputs in that order (hiding, binding, hiding, ...)
+NonceLaws(e, k) ==
+  LET sv == e.res.rng_served
+      prs == IF e.op = "commit" THEN <<[hiding |-> e.res.hiding, binding |-> e.res.binding]>> ELSE e.res.pairs
+  IN IF Len(sv) # 2 * k \/ \E j \in DOMAIN sv : Len(sv[j]) # 32 THEN {"rng_bytes_drawn"}
+     ELSE IF Len(Qs(e)) # 2 * k THEN {"query_count"}
+     ELSE UNION {
+       (IF Q(e, 2 * j - 1)[1] # "H3" \/ Q(e, 2 * j - 1)[2] # sv[2 * j - 1] \o env[e.kp].share THEN {"H3_preimage_hiding"} ELSE {})
+       \cup (IF Q(e, 2 * j)[1] # "H3" \/ Q(e, 2 * j)[2] # sv[2 * j] \o env[e.kp].share THEN {"H3_preimage_binding"} ELSE {})
+       \cup (IF prs[j].hiding # Q(e, 2 * j - 1)[3] \/ prs[j].binding # Q(e, 2 * j)[3] THEN {"nonce_is_not_H3_output"} ELSE {})
+       : j \in 1..k }
+
 Laws(e) ==
-  CASE e.op = "commit" /\ e.res.ok /\ e.kp \in DOMAIN env ->
-         (IF e.res.rng_req # <<32, 32>> THEN {"rng_request_sizes"} ELSE {})
-         \cup (IF Len(Qs(e)) # 2 THEN {"query_count"}
-               ELSE (IF Q(e, 1)[1] # "H3" \/ Q(e, 1)[2] # e.res.rng_served[1] \o env[e.kp].share THEN {"H3_preimage_hiding"} ELSE {})
-                    \cup (IF Q(e, 2)[1] # "H3" \/ Q(e, 2)[2] # e.res.rng_served[2] \o env[e.kp].share THEN {"H3_preimage_binding"} ELSE {})
-                    \cup (IF e.res.hiding # Q(e, 1)[3] \/ e.res.binding # Q(e, 2)[3] THEN {"nonce_is_not_H3_output"} ELSE {}))
+  CASE e.op = "commit" /\ e.res.ok /\ e.kp \in DOMAIN env -> NonceLaws(e, 1)
+    [] e.op = "preprocess" /\ e.res.ok /\ e.kp \in DOMAIN env -> NonceLaws(e, e.k)
     [] e.op = "sign" /\ e.res.ok /\ e.kp \in DOMAIN env /\ e.pkg \in DOMAIN env ->
          BindingLaws(e, env[e.pkg], env[e.kp].vk, << >>)
     [] e.op = "aggregate" /\ e.res.ok /\ e.pkp \in DOMAIN env /\ e.pkg \in DOMAIN env /\ ~Fld(e, "rp") ->
